@@ -1,6 +1,7 @@
 import HC.Proofs.Verify
 import HC.Proofs.Complete
 import HC.Proofs.UpgradeComplete
+import HC.Proofs.Sync
 /-!
 # C03 — any honest proof is accepted and replicas converge to the writer's data
 
@@ -29,8 +30,18 @@ Proved so far:
   the length with canonical, aligned iterators (`UpgradeSound.fullRoot_canon`), and the greedy walk is the
   recursive root decomposition (`FullRoots.cover_lt`).
 
+* **`sync_first_contact`, `sync_invariant`, `sync_progress`** (unbounded, tree level): the exchange is closed
+  under its own effects.  `Sync.Reach` is the set of replica tree states obtained from one that knows nothing
+  by the first upgrade answer followed by any number of block answers in any order (repeats allowed), each
+  produced by the writer's `create_valueless_proof` for the replica's own request, checked by the replica's
+  `verify_proof` and committed by `commit`.  First contact succeeds from every empty replica; every reachable
+  state is a sparse replica at the writer's length holding the writer's roots and fork; and from every
+  reachable state the exchange for every block of the log succeeds again (answer, acceptance, commit).  So an
+  honest exchange never gets stuck, for every log, every order of requests and every length of the exchange.
+
 Partial: proofs with a hash or seek section, upgrades from a non-empty replica or to less than the writer's
-length (additional nodes), block + upgrade in one proof, and the application step after verification (data offset, commit) are not proved complete;
+length (additional nodes), block + upgrade in one proof, and the core-level application step after verification
+(data write, oplog entry, bitfield, flushing the tree's nodes to the store) are not proved complete;
 they are validated by the correspondence run — every honest proof (all request orders, partial upgrades
 with additional nodes, seeks, hash sweeps, replica reopen, cleared blocks) must be accepted by the real
 crate and by the model, and the replica must converge.
@@ -65,7 +76,8 @@ theorem block_accepted (C : Crypto) (bs : Array Bytes) (t : Tree) (f : File) (pk
     (hstored : t.node? f (Flat.index k (i / 2 ^ k)) = some (RefTree.nodeAt C bs k (i / 2 ^ k))) :
     ∃ cs, t.verifyProof C f ⟨fork, some ⟨i, bs.getD i [], Complete.sibPath C bs 0 i k⟩, none, none, none⟩ pk = .ok cs
       ∧ cs.upgraded = t.changeset.upgraded ∧ cs.length = t.length
-      ∧ (∀ n ∈ cs.rnodes, ∃ dn on, n = RefTree.nodeAt C bs dn on) :=
+      ∧ (∀ n ∈ cs.rnodes, ∃ dn on, n = RefTree.nodeAt C bs dn on ∧ (on + 1) * 2 ^ dn ≤ (i / 2 ^ k + 1) * 2 ^ k)
+      ∧ cs.origLength = t.length ∧ cs.origFork = t.fork :=
   Complete.block_proof_complete C bs t f pk i k fork hstored
 
 /-- honest block exchange, end to end on the verification side -/
@@ -75,7 +87,8 @@ theorem honest_block_accepted (C : Crypto) (bs : Array Bytes) (tw : Tree) (fw : 
     ∃ nodes cs, tw.createValuelessProof fw (some ⟨i, tr.missingNodes fr (2 * i)⟩) none none none
         = .ok ⟨tw.fork, some ⟨i, nodes⟩, none, none, none⟩
       ∧ tr.verifyProof C fr ⟨tw.fork, some ⟨i, bs.getD i [], nodes⟩, none, none, none⟩ pk = .ok cs
-      ∧ (∀ n ∈ cs.rnodes, ∃ dn on, n = RefTree.nodeAt C bs dn on) :=
+      ∧ (∀ n ∈ cs.rnodes, ∃ dn on, n = RefTree.nodeAt C bs dn on ∧ (on + 1) * 2 ^ dn ≤ m)
+      ∧ cs.upgraded = false ∧ cs.origLength = tr.length ∧ cs.origFork = tr.fork :=
   Complete.honest_block_accepted C bs tw fw tr fr m hT hN hs hS hm i hi pk
 
 /-- non-vacuity: a replica that stores the whole reference tree of a one-block log is `Sparse` -/
@@ -100,7 +113,7 @@ example (C : Crypto) (hC : TreeStore.HashWF C) : Complete.Sparse C #[[1, 2, 3]] 
     simp only [List.mem_singleton] at hp
     subst hp
     have hb := TreeStore.nodeAt_not_blank C hC #[[1, 2, 3]] 0 0
-    simp [Tree.node?, Flat.index, Std.HashMap.getElem?_insert, hb]
+    simp [Tree.node?, Flat.index, hb]
 
 /-- **First contact, upgrade.**  For every log `bs` (shorter than 2^64, non-empty), every writer state holding it
     (reference roots, reference nodes reachable, a signature that verifies for the reference head) and every
@@ -118,7 +131,71 @@ theorem honest_first_upgrade_accepted (C : Crypto) (bs : Array Bytes) (tw : Tree
   have hw := UpgradeComplete.create_upgrade_from0 C bs tw fw hT hNodes hN h0 sig hsig
   obtain ⟨cs', h1, h2, h3, h4, h5⟩ := UpgradeComplete.fresh_upgrade_accepted C bs hN h0 tw.fork pk sig tr.changeset
     (by simp [Tree.changeset, hfresh]) (by simp [Tree.changeset, hflen]) hsl hver
-  refine ⟨_, cs', hw, ?_, h2, h3, h4, h5⟩
+  refine ⟨_, cs', hw, ?_, h2, h3, h4, h5.1⟩
   simp [Tree.verifyProof, verifyTree, untrustedOf, noSeekOf, h1]
+
+/-- **Sync, first contact.**  From every replica that stores nothing, the writer's answer to "upgrade from 0" is
+    accepted and committed; the replica then is a sparse replica at the writer's length with the writer's roots,
+    fork and signature. -/
+theorem sync_first_contact (C : Crypto) (hC : TreeStore.HashWF C) (bs : Array Bytes) (tw : Tree) (fw : File) (pk sig : Bytes)
+    (hW : Sync.Writer C bs tw fw pk sig) (tr : Tree) (fr : File) (hS : Complete.Sparse C bs 0 tr fr) (hr : tr.roots = []) :
+    ∃ vp cs tr', tw.createValuelessProof fw none none none (some ⟨0, bs.size⟩) = .ok vp
+      ∧ tr.verifyProof C fr ⟨vp.fork, none, none, none, vp.upgrade⟩ pk = .ok cs
+      ∧ tr.commit cs = .ok tr'
+      ∧ Sync.Reach C bs tw fw pk fr tr'
+      ∧ Complete.Sparse C bs bs.size tr' fr ∧ tr'.roots = RefTree.roots C bs ∧ tr'.fork = tw.fork ∧ tr'.signature = some sig := by
+  obtain ⟨vp, cs, tr', h1, h2, h3, h4⟩ := Sync.first_contact C hC bs tw fw pk sig hW tr fr hS hr
+  exact ⟨vp, cs, tr', h1, h2, h3, Sync.Reach.first tr vp cs tr' hS hr h1 h2 h3, h4⟩
+
+/-- **Sync, invariant.**  Every replica tree state reachable by honest exchanges is a sparse replica of the
+    writer's log at the writer's length, with the writer's roots and fork. -/
+theorem sync_invariant (C : Crypto) (hC : TreeStore.HashWF C) (bs : Array Bytes) (tw : Tree) (fw : File) (pk sig : Bytes)
+    (hW : Sync.Writer C bs tw fw pk sig) (fr : File) (tr : Tree) (h : Sync.Reach C bs tw fw pk fr tr) :
+    Complete.Sparse C bs bs.size tr fr ∧ tr.roots = RefTree.roots C bs ∧ tr.fork = tw.fork :=
+  Sync.reach_sparse C hC bs tw fw pk sig hW fr tr h
+
+/-- **Sync, progress.**  From every reachable replica state, the exchange for every block of the log succeeds:
+    the writer answers the replica's request, the replica accepts the answer, the commit succeeds, and the
+    result is reachable again. -/
+theorem sync_progress (C : Crypto) (hC : TreeStore.HashWF C) (bs : Array Bytes) (tw : Tree) (fw : File) (pk sig : Bytes)
+    (hW : Sync.Writer C bs tw fw pk sig) (fr : File) (tr : Tree) (h : Sync.Reach C bs tw fw pk fr tr) (i : Nat) (hi : i < bs.size) :
+    ∃ nodes cs tr', tw.createValuelessProof fw (some ⟨i, tr.missingNodes fr (2 * i)⟩) none none none
+        = .ok ⟨tw.fork, some ⟨i, nodes⟩, none, none, none⟩
+      ∧ tr.verifyProof C fr ⟨tw.fork, some ⟨i, bs.getD i [], nodes⟩, none, none, none⟩ pk = .ok cs
+      ∧ tr.commit cs = .ok tr' ∧ Sync.Reach C bs tw fw pk fr tr' :=
+  Sync.block_progress C hC bs tw fw pk sig hW fr tr h i hi
+
+/-- non-vacuity: a new tree over an empty store is a replica that stores nothing -/
+example (C : Crypto) (bs : Array Bytes) : Complete.Sparse C bs 0 {} File.empty ∧ ({} : Tree).roots = [] := by
+  refine ⟨⟨rfl, ?_, ?_⟩, rfl⟩
+  · intro i n h
+    simp [Tree.node?, File.read, File.empty, File.size, Spec.nodeSize] at h
+  · intro p hp
+    simp [RefProof.rootsStack_zero] at hp
+
+/-- non-vacuity: a writer holding a one-block log, with a signing scheme whose signatures are 64 bytes and verify -/
+example (C : Crypto) (hC : TreeStore.HashWF C) (seed : Bytes) (hS : LiveRefine.SignWF C)
+    (hV : ∀ msg, C.verify (C.publicKey seed) msg (C.sign seed msg) = true) :
+    Sync.Writer C #[[1, 2, 3]]
+      { roots := [RefTree.nodeAt C #[[1, 2, 3]] 0 0], length := 1, byteLength := 3, signature := some (C.sign seed (RefTree.signableOf C #[[1, 2, 3]] 0)), unflushed := (∅ : Std.HashMap Nat Codec.Node).insert 0 (RefTree.nodeAt C #[[1, 2, 3]] 0 0) }
+      File.empty (C.publicKey seed) (C.sign seed (RefTree.signableOf C #[[1, 2, 3]] 0)) := by
+  have h1 : RefTree.rootsStack 1 = [(0, 0)] := by
+    rw [RefProof.rootsStack_odd 1 (by decide)]; simp [RefProof.rootsStack_zero]
+  refine ⟨⟨rfl, ?_, rfl⟩, ?_, by decide, by decide, rfl, hS _ _, hV _⟩
+  · show [RefTree.nodeAt C #[[1, 2, 3]] 0 0].reverse = (RefTree.rootsStack 1).map _
+    rw [h1]; rfl
+  · intro d o hb
+    have hd : d = 0 := by
+      cases d with
+      | zero => rfl
+      | succ d =>
+        have : 2 ≤ 2 ^ (d + 1) := by rw [Nat.pow_succ]; have := Nat.pow_pos (n := d) (by decide : 0 < 2); omega
+        have : 2 ≤ (o + 1) * 2 ^ (d + 1) := Nat.le_trans this (Nat.le_mul_of_pos_left _ (Nat.succ_pos _))
+        simp at hb; omega
+    subst hd
+    have ho : o = 0 := by simp at hb; omega
+    subst ho
+    have hb := TreeStore.nodeAt_not_blank C hC #[[1, 2, 3]] 0 0
+    simp [Tree.node?, Flat.index, hb]
 
 end HC.C03
